@@ -4,7 +4,7 @@ from __future__ import annotations
 
 import importlib
 
-CONTRACT_MODULES = ["contracts.curves", "contracts.groups", "contracts.closed", "contracts.fields", "contracts.ints", "contracts.purity", "contracts.hashing", "contracts.codec", "contracts.ecdsa", "contracts.bls", "contracts.h2c"]
+CONTRACT_MODULES = ["contracts.curves", "contracts.groups", "contracts.closed", "contracts.fields", "contracts.ints", "contracts.purity", "contracts.hashing", "contracts.codec", "contracts.ecdsa", "contracts.bls", "contracts.h2c", "contracts.pairing"]
 
 _COMMON_TRUST = [
     "CPython semantics as modelled in DESIGN.md section 3 (mathematical ints, bytes as octet sequences, static name resolution, no monkey-patching)",
@@ -127,6 +127,18 @@ PROPS = {
         text="optimized_swu_G1/G2 are executed symbolically on every path (exceptional / regular x square / non-square x sign flip, and for G2 every candidate of the eta loop) over an abstract field with SYMBOLIC A', B', Z and eta table: the result is a finite point of E' whose x is the RFC's x1 resp. x2 = Z u^2 x1, with (y/z)^2 = g(x/z) and sgn0(y/z) = sgn0(u), and the 'SWU failure' raise is unreachable; the isogeny maps are proved to evaluate x_num/x_den, y*y_num/y_den for symbolic tables (Horner loops); map_to_curve and hash_to_G1/G2 are proved to be the RFC composition clear_cofactor(map(u0) + map(u1)) over hash_to_field (C15); sgn0 is proved against RFC 9380 4.1 (C14 unit).",
         note="Square-root completeness lemmas are assumptions; everything the code tests a posteriori is proved without them.",
         design_ref="DESIGN.md section 8 C10"),
+    "C05": dict(level="proof", trusted=_COMMON_TRUST, assumptions=["A-PAIRING: e_T(Q,P) = MillerSpec_T(Q,P)^((p^12-1)/r) is bilinear and non-degenerate on G2 x G1 for the pinned T of each curve and independent of the (binary vs signed-digit) addition chain — ASSUMED (Miller 2004, Vercauteren 2010); no contract within reach can prove it (needs divisor theory not in Mathlib). Bounded stand-in: run-time monitor pairing_bilinearity on the real code (listed under bounded_standins, never counted in discharged)",
+                     "A-PRIME, L-CYCLIC: m.Q != O for 0 < m < r (linefunc preconditions inside the Miller loop)",
+                     "curve-level contracts of linefunc / double / add / neg / twist (C13, C07) are used at the call sites"],
+        text="For all four modules: pairing() is proved to raise exactly when an argument is not on its curve and to return the unit when either argument is infinity (any representative), otherwise miller_loop on the twisted / cast points; each Miller loop is executed along its digit string and proved, as an identity in the line-function symbols, to compute the textbook Miller recurrence MillerSpec_T for the pinned loop parameter (incl. the two Frobenius lines of the BN optimal ate pairing) raised to (p^12-1)/r; line-function preconditions hold at every call; pairing(G2,G1) has order exactly r (eval on the real code). Bilinearity and non-degeneracy themselves are the assumed theorem A-PAIRING about MillerSpec; what is proved is that the code computes the textbook object for every input.",
+        note="Decided relative to A-PAIRING; the monitor is a bounded stand-in, reported separately.",
+        design_ref="DESIGN.md section 8 C05"),
+    "C12": dict(level="proof", trusted=_COMMON_TRUST, assumptions=["A-PAIRING: e_T(Q,P) = MillerSpec_T(Q,P)^((p^12-1)/r) is bilinear and non-degenerate on G2 x G1 for the pinned T of each curve and independent of the (binary vs signed-digit) addition chain — ASSUMED (Miller 2004, Vercauteren 2010); no contract within reach can prove it (needs divisor theory not in Mathlib). Bounded stand-in: run-time monitor pairing_bilinearity on the real code (listed under bounded_standins, never counted in discharged)",
+                     "A-PRIME, L-CYCLIC: m.Q != O for 0 < m < r (linefunc preconditions inside the Miller loop)",
+                     "curve-level contracts of linefunc / double / add / neg / twist (C13, C07) are used at the call sites"] + ["C12(b): equality of the optimized (signed-digit) and reference (binary) bn128 pairings AFTER final exponentiation is chain-independence, part of A-PAIRING: assumed + bounded monitor (coefficient-wise comparison)"],
+        text="bls12-381: optimized and reference Miller loops are both proved equal to the same MillerSpec (same binary digit string), hence equal Miller values and pairing values; final_exponentiate of the optimized bls12-381 module is proved to raise to exactly (p^12-1)/r for every element incl. 0 (exponent bookkeeping over the exp_by_p contract, closed integer identity), the other three by definition; exp_by_p is proved linear over its table, the table entries are (w^i)^p (eval), x^p follows by L-FROB (Lean); final_exponentiate of a product is the product (L-POW, Lean).",
+        note="bn128 optimized-vs-reference equality rests on A-PAIRING (bounded monitor).",
+        design_ref="DESIGN.md section 8 C12"),
     "C17": dict(level="proof", trusted=_COMMON_TRUST, assumptions=[
         "A-ORDER: #E(F_p) = h1 r (forced by Hasse + r prime, eval) and #E'(F_p2) = h2 r (assumed; Hasse-interval cross-check by eval)",
         "A-STRUCT-G1: the cofactor part of E(F_p) has exponent dividing 1 - x (RFC 9380 section 8.8.1); needed only for 'clear_cofactor_G1 lands in the subgroup'",
